@@ -72,6 +72,10 @@ def run(tier):
         scs.append({"id": i, "seed": rnd.randrange(1 << 30), "msgs": msgs,
                     "pre": [rnd.choice([0, m, rnd.randrange(0, m + 1)]) for m in msgs],
                     "consumer": [rnd.choice(["block_on", "manual", "manual", "pool"]) for _ in range(n)]})
+        if i % 4 == 1:
+            # widen the windows: between queueing a route and waking the routing thread; inside the routing thread
+            sites = ["async.to_stream.queued", "async.msg", "async.install", "async.closed"]
+            scs[-1]["stalls"] = {rnd.choice(sites): rnd.choice([200, 1500, 5000]) for _ in range(rnd.randrange(1, 3))}
     # bursts: many empty channels converted at the same instant from as many threads; afterwards traffic only on
     # one of them while all other senders stay idle for a while (a route stranded in the queue gets no help)
     for i in range(nsc, nsc + (12 if tier == "quick" else 120)):
